@@ -169,6 +169,15 @@ def sparse_selftest(seed=0, rounds=12):
             assert R_r.nnz == R_m.nnz, ("nnz", R_r.nnz, R_m.nnz)
             if R_r.format == "bsr":
                 assert _raises(lambda: R_r.row) is AttributeError and _raises(lambda: R_m.row) is AttributeError; n_cmp += 1
+    # block_diag: sparse blocks contribute their stored entries, dense blocks all their entries (explicit zeros stay stored in coo)
+    Bs = np.array([[0, 2., 0], [2, 0, 3], [0, 3, 0]])
+    for fmt in ("coo", None, "csr"):
+        r_ = sp.block_diag([sp.coo_array(Bs)] * 2 + [sp.coo_array(2 * Bs)], format=fmt, dtype=float)
+        m_ = M.block_diag([M.coo_array(Bs)] * 2 + [M.coo_array(2 * Bs)], format=fmt, dtype=float)
+        _eq_struct(r_, m_, "block_diag sparse"); n_cmp += 1
+        r_ = sp.block_diag([Bs, Bs[:2, :2]], format=fmt)
+        m_ = M.block_diag([Bs, Bs[:2, :2]], format=fmt)
+        _eq_struct(r_.tocoo(), m_.tocoo(), "block_diag dense"); n_cmp += 1
     # dok counting
     rk = sp.dok_array((3, 3)); mk = M.DDok((3, 3))
     for (i, j) in [(0, 1), (0, 1), (2, 2), (1, 0)]:
